@@ -157,9 +157,9 @@ theorem exOps2_ok : ∀ op ∈ exOps2, OpOK exL2.sch exInt7 [] op := by
     · exact wrapOK_int7 _ rfl
     · rfl
   · trivial
-  · trivial
-  · intro _; exact ⟨by decide, by intro s hs; cases hs⟩
   · exact Or.inl rfl
+  · intro _; exact ⟨by decide, by intro s hs; cases hs⟩
+  · exact ⟨(fun s hs => by cases hs), (fun h => by cases h)⟩
   · exact wrapOK_int7 _ rfl
   · trivial
   · exact ⟨rfl, true, rfl⟩
@@ -174,15 +174,22 @@ theorem exOps2_ok : ∀ op ∈ exOps2, OpOK exL2.sch exInt7 [] op := by
     subst ha
     exact wrapOK_int7 _ rfl
 
+theorem exOps2_keys : ∀ op ∈ exOps2, TextKeys op := by
+  intro op hop
+  simp only [exOps2, exOps, List.cons_append, List.nil_append, List.mem_cons, List.not_mem_nil, or_false] at hop
+  rcases hop with rfl | rfl | rfl | rfl | rfl | rfl | rfl | rfl | rfl | rfl | rfl | rfl | rfl | rfl | rfl | rfl <;>
+    first | trivial | exact Or.inl rfl
+
 /-- the history up to the second `*=`: two members holding the unadaptable text 'x' -/
 example : items (run ⟨exL2, 100⟩ exOps).node = [.sc .none ['x'], .sc .none ['x']] := by
   rw [(run_refines_scalar (Or.inl rfl) exOps exL2 100 exL2_ok (Or.inl rfl)
-    (fun op hop => exOps2_ok op (by simp [exOps2, hop]))).1]
+    (fun op hop => ⟨exOps2_ok op (by simp [exOps2, hop]), exOps2_keys op (by simp [exOps2, hop])⟩)).1]
   rfl
 
 /-- the whole history: `[4]` -/
 example : items (run ⟨exL2, 100⟩ exOps2).node = [.sc (.int 4) ['4']] := by
-  rw [(run_refines_scalar (Or.inl rfl) exOps2 exL2 100 exL2_ok (Or.inl rfl) exOps2_ok).1]
+  rw [(run_refines_scalar (Or.inl rfl) exOps2 exL2 100 exL2_ok (Or.inl rfl)
+    (fun op hop => ⟨exOps2_ok op hop, exOps2_keys op hop⟩)).1]
   rfl
 
 /-- the reference list after the first nine calls: `set_default` left `[7, 7]` -/
@@ -219,7 +226,8 @@ def dx (v : Val) (u : Str) : Sig := .map [(['x'], .sc v u)]
 theorem exD_items3 : items (run ⟨exList, 10⟩ (exDOps.take 2)).node = [dx (.int 5) ['5'], dx (.int 2) ['2']] := rfl
 
 theorem exD_hist : HistOK exDictS exList 10 exDOps := by
-  refine ⟨?_, ?_, ?_, ?_, ?_, ?_, ?_, trivial, trivial⟩
+  refine ⟨⟨?_, trivial⟩, ⟨?_, trivial⟩, ⟨?_, ?_⟩, ⟨?_, trivial⟩, ⟨?_, trivial⟩, ⟨?_, trivial⟩, ⟨?_, trivial⟩,
+    ⟨trivial, trivial⟩, trivial⟩
   · exact ⟨true, rfl⟩
   · exact ⟨⟨true, rfl⟩, fun _ => ⟨_, rfl⟩⟩
   · intro _
@@ -229,6 +237,7 @@ theorem exD_hist : HistOK exDictS exList 10 exDOps := by
     rw [exD_items3] at hs'
     simp only [List.mem_cons, List.not_mem_nil, or_false] at hs'
     rcases hs' with rfl | rfl <;> exact ⟨true, rfl⟩
+  · intro _; decide
   · exact ⟨true, rfl⟩
   · intro a ha
     simp only [List.mem_cons, List.not_mem_nil, or_false] at ha
